@@ -172,10 +172,10 @@ def run_config(pid, name, consts, invariants, actprops, workdir, obs_sample, rep
     return info
 
 
-def run_random(pid, name, rc, runs, steps, seed, workdir, preds):
+def run_random(pid, name, rc, runs, steps, seed, workdir, preds, kind="managed"):
     """Direction B: seeded random schedules on the real pool; the recorded trace is validated against
-    ManagedTrace.tla (all invariants evaluated on the observed behaviour) and the observation log is
-    judged by ManagedObs.tla."""
+    ManagedTrace.tla / UnmanagedTrace.tla (all invariants evaluated on the observed behaviour) and the
+    observation log is judged by the monitor specification."""
     import tracecheck
     os.makedirs(workdir, exist_ok=True)
     rcf = os.path.join(workdir, name + ".rand.json")
@@ -183,22 +183,31 @@ def run_random(pid, name, rc, runs, steps, seed, workdir, preds):
     trace = os.path.join(workdir, name + ".trace.ndjson")
     obs = os.path.join(workdir, name + ".randobs.ndjson")
     t0 = time.time()
-    p = subprocess.run([MH, "random", "--cfg", rcf, "--runs", str(runs), "--seed", str(seed), "--steps", str(steps),
+    p = subprocess.run([MH, "urandom" if kind == "unmanaged" else "random", "--cfg", rcf, "--runs", str(runs), "--seed", str(seed), "--steps", str(steps),
                         "--trace", trace, "--obs", obs], capture_output=True, text=True)
     if p.returncode != 0:
         sys.stderr.write(p.stdout[-2000:] + p.stderr[-4000:])
         raise ToolError("random driver failed on %s" % name)
     drv = json.loads(p.stdout.strip().splitlines()[-1])
-    tv = tracecheck.validate(trace, rc, os.path.join(workdir, "trace_" + name))
+    tv = tracecheck.validate(trace, rc, os.path.join(workdir, "trace_" + name), kind=kind)
     hcfg = dict(rc["cfg"])
-    mon = obsmon.monitor(obs, hcfg, os.path.join(workdir, "obsmon_rand_" + name), spec="ManagedObs.tla")
+    mon = obsmon.monitor(obs, hcfg, os.path.join(workdir, "obsmon_rand_" + name), spec=KINDS[kind]["monitor"])
     rejected_runs = sorted(set(r["run"] for r in tv["rejected"]))
-    info = {"config": "random:" + name, "kind": "managed", "states": tv["states"], "transitions": max(tv["events"], 1), "depth": 0,
+    # an invariant / action property of the specification false on the observed behaviour: where?
+    tv["violated_run"] = None
+    if tv["violated"] and tv.get("violated_at_event"):
+        with open(trace) as f:
+            for i, line in enumerate(f):
+                if i + 1 >= tv["violated_at_event"]:
+                    e = json.loads(line)
+                    tv["violated_run"] = (e.get("run", 0), e.get("seq", 0))
+                    break
+    info = {"config": "random:" + name, "kind": kind, "violated_run": tv["violated_run"], "states": tv["states"], "transitions": max(tv["events"], 1), "depth": 0,
             "tlc_s": tv["tlc_s"], "actions_taken": {}, "runs": runs, "random_steps": drv["steps"], "hung": drv["hung"],
             "conform": runs - len(rejected_runs), "nonconform": len(rejected_runs), "trace_events": tv["events"],
             "first_divergences": tv["rejected"][:3], "spec_violations_on_trace": tv["violated"],
             "replay_s": round(time.time() - t0, 2), "obs_events": mon["events"], "viol": mon["viol"],
-            "random": {"rc": rc, "seed": seed, "steps": steps}}
+            "random": {"rc": rc, "seed": seed, "steps": steps, "pool": kind}}
     samples = []
     with open(trace) as f:
         for i, line in enumerate(f):
@@ -302,14 +311,27 @@ def managed_check(pid, tier, seed):
                 if pred in preds:
                     for run, i in where:
                         violations.append((name, pred, run, i))
-    for (name, rcfg, runs, steps) in spec.get("random", {}).get(tier, []):
+    for rentry in spec.get("random", {}).get(tier, []):
+        (name, rcfg, runs, steps) = rentry[:4]
+        rkind = rentry[4] if len(rentry) > 4 else "managed"
         log("[%s] random schedules %s: %d runs x <= %d steps on the real pool, trace validation + monitor ..." % (pid, name, runs, steps))
-        info = run_random(pid, name, rcfg, runs, steps, seed, workdir, spec["preds"])
+        info = run_random(pid, name, rcfg, runs, steps, seed, workdir, spec["preds"], kind=rkind)
         infos.append(info)
         log("[%s]   %d steps executed; trace: %d events, %d runs accepted, %d rejected; monitor: %d events"
             % (pid, info["random_steps"], info["trace_events"], info["conform"], info["nonconform"], info["obs_events"]))
         if info["spec_violations_on_trace"]:
-            log("[%s]   invariants of ManagedPool violated on the observed behaviour: %s" % (pid, info["spec_violations_on_trace"]))
+            # the behaviour was accepted step by step up to here and an invariant of the specification is false
+            # in the state reached: the code did it.  TLC stops at the first one.
+            log("[%s]   specification invariants violated on the observed behaviour: %s (run, seq) = %s"
+                % (pid, info["spec_violations_on_trace"], info["violated_run"]))
+            own = set(spec["invariants"] + spec["actprops"] + ["T" + a for a in spec["actprops"]])
+            for inv in info["spec_violations_on_trace"]:
+                run_, seq_ = info["violated_run"] or (0, 0)
+                if inv in own:
+                    violations.append((info["config"], inv, run_, seq_))
+                else:
+                    print("TRACE-INVARIANT property=%s invariant=%s run=%s (not among the property's own invariants; the rest of the batch was not validated)"
+                          % (pid, inv, run_), flush=True)
         for pred, where in info["viol"].items():
             if pred in spec["preds"]:
                 for run, i in where:
@@ -430,11 +452,18 @@ def replay_file(fn):
         rcf = os.path.join(workdir, "rand.json")
         json.dump(rp["rc"], open(rcf, "w"))
         obs = os.path.join(workdir, "obs.ndjson")
-        subprocess.run([MH, "random", "--cfg", rcf, "--runs", "1", "--start", str(rp["run"]), "--seed", str(rp["seed"]),
-                        "--steps", str(rp["steps"]), "--trace", os.path.join(workdir, "trace.ndjson"), "--obs", obs], check=True)
-        mon = obsmon.monitor(obs, rp["rc"]["cfg"], os.path.join(workdir, "obsmon"), spec="ManagedObs.tla")
+        rkind = rp.get("pool", "managed")
+        trace = os.path.join(workdir, "trace.ndjson")
+        subprocess.run([MH, "urandom" if rkind == "unmanaged" else "random", "--cfg", rcf, "--runs", "1", "--start", str(rp["run"]), "--seed", str(rp["seed"]),
+                        "--steps", str(rp["steps"]), "--trace", trace, "--obs", obs], check=True)
+        mon = obsmon.monitor(obs, rp["rc"]["cfg"], os.path.join(workdir, "obsmon"), spec=KINDS[rkind]["monitor"])
         evs = [json.loads(l) for l in open(obs)]
         rc = 0
+        import tracecheck
+        tv = tracecheck.validate(trace, rp["rc"], os.path.join(workdir, "trace"), kind=rkind)
+        print("trace accepted by the specification:", tv["accepted"], "rejected at:", tv["rejected"][:1], "invariants violated on it:", tv["violated"])
+        if rp.get("predicate") in tv["violated"]:
+            rc = 1
         for pred, where in sorted(mon["viol"].items()):
             for run, i in where[:2]:
                 e = evs[i] if i < len(evs) else {}
